@@ -948,8 +948,16 @@ func (h *histT) register(chs []change, script map[string]*specT, recs []recTok, 
 							life, lim = rem, "piece-"+t
 						}
 					}
-				} else if fsp := script[t]; fsp != nil && fsp.lease != nil && *fsp.lease < life {
-					life, lim = *fsp.lease, "piece-lease"
+				} else {
+					// fetched in this very op: a denial that carries no record has no
+					// negative TTL at all — it is kept for the 5 s floor, and so is
+					// what adopted its rcode (fixed in /repo 94ad58d)
+					if 5 < life {
+						life, lim = 5, "fresh-recordless-nxdomain"
+					}
+					if fsp := script[t]; fsp != nil && fsp.lease != nil && *fsp.lease < life {
+						life, lim = *fsp.lease, "piece-lease"
+					}
 				}
 			}
 		}
@@ -977,7 +985,11 @@ func (h *histT) register(chs []change, script map[string]*specT, recs []recTok, 
 			}
 		}
 		if got > life && verdict == "" {
-			verdict = fail("c/admit/lifetime-exceeds-"+lim, "slot=%s stored=%ds permitted=%ds", c.k.tok, got, life)
+			sig := "c/admit/lifetime-exceeds-" + lim
+			if lim == "fresh-recordless-nxdomain" {
+				sig = "c/admit/alias-outlives-fresh-recordless-nxdomain"
+			}
+			verdict = fail(sig, "slot=%s stored=%ds permitted=%ds", c.k.tok, got, life)
 		}
 	}
 	return verdict
